@@ -1,2 +1,16 @@
 import Rtsp.Props.C14
-#print axioms Rtsp.Recv.stub
+open Rtsp.Recv.C14
+#print axioms invariant_reachable
+#print axioms scan_terminates
+#print axioms delivered_increasing_and_lost_eq_skipped
+#print axioms from_init
+#print axioms fwd_irrefl
+#print axioms buffered_distinct
+#print axioms arrival_in_window_delivered
+#print axioms dropped_only_behind
+#print axioms stats_agree
+#print axioms fraction_lost_lt_256
+#print axioms total_lost_clamped
+#print axioms ext_seq
+#print axioms restart_followed_within
+#print axioms displacement_clause_fails
